@@ -25,8 +25,8 @@ ASSUMPTIONS = ['the admitted set is taken as observed through geos_within_constr
                'designs whose feasibility or discrete score entries are within 1e-9 of flipping are neither demanded nor forbidden',
                'scoring of brute-force designs uses a pristine second copy of the diagnostics code (formula anchored by C05/C06)']
 EXHAUSTIVE = {'quick': False, 'thorough': False}
-MINIMA = {'quick': {'prior_call_cases': 60, 'shared_data_searches': 40, 'compared': 200, 'brute_designs': 3000, 'distinct_nontrivial': 80, 'cases_with_pruning': 8},
-          'thorough': {'prior_call_cases': 500, 'shared_data_searches': 400, 'compared': 2500, 'brute_designs': 200000, 'distinct_nontrivial': 1000, 'cases_with_pruning': 100}}
+MINIMA = {'quick': {'rounding_window_cases': 12, 'prior_call_cases': 60, 'shared_data_searches': 40, 'compared': 200, 'brute_designs': 3000, 'distinct_nontrivial': 80, 'cases_with_pruning': 8},
+          'thorough': {'rounding_window_cases': 120, 'prior_call_cases': 500, 'shared_data_searches': 400, 'compared': 2500, 'brute_designs': 200000, 'distinct_nontrivial': 1000, 'cases_with_pruning': 100}}
 N = {'quick': 640, 'thorough': 4800}
 CASE_TIMEOUT = {'quick': 300, 'thorough': 1200}
 
@@ -79,6 +79,32 @@ def run_case(spec):
   if cls == 'marginal':
     case['params']['n_designs'] = r.choice([5, 10, 20, 50])
     case['params'].pop('min_corr', None)
+  if spec['idx'] % 8 in (2, 6) and G >= 3:
+    # two-phase "rounding window" case: pick a feasible design whose correlation c rounds UP at two decimals and put
+    # min_corr between c and round(c, 2): the design fails the correlation test although its reported (rounded)
+    # correlation is >= min_corr; choose n_designs so that this design is the last one retained
+    kw0 = dict(case['params'], n_designs=100000)
+    kw0.pop('min_corr', None)
+    probe = sl.run_search(dict(case, params=kw0), 'exhaustive')
+    if probe['outcome'].ok and probe['designs']:
+      cands = [d for d in probe['designs'] if d.get('corr') is not None and 0.8 <= d['corr'] < 0.985
+               and round(d['corr'], 2) - d['corr'] > 5e-4]
+      if cands:
+        dstar = r.choice(cands)
+        mc = (dstar['corr'] + round(dstar['corr'], 2)) / 2.0
+        kw1 = dict(case['params'], min_corr=mc)
+        t1 = sl.Truth(dict(case, params=kw1))
+        bf = util.call(sl.brute_force, t1, probe['admitted'], sl.shadow_params(dict(case, params=kw1)))
+        if bf.ok:
+          key = (tuple(dstar['t']), tuple(dstar['c']))
+          mine = [f for f in bf.value['feasible'] if (tuple(f['t']), tuple(f['c'])) == key]
+          if mine and not sl.has_nan(mine[0]['score']):
+            better = sum(1 for f in bf.value['feasible'] if not sl.has_nan(f['score']) and tuple(f['score']) > tuple(mine[0]['score']))
+            kw1['n_designs'] = better + 1
+            case = dict(case, params=kw1)
+            truth = sl.Truth(case)
+            desc = sl.describe(case, with_frame=False)
+            counters['rounding_window_cases'] += 1
   shared = spec['idx'] % 4 == 1
   prior = spec['idx'] % 6 == 3
   rec = sl.run_search(case, 'exhaustive', interleave=(r if shared else None), prior_calls=(['exhaustive', 'greedy'] if prior else None))
